@@ -139,6 +139,11 @@ def run(ctx):
                                     {"id": 3, "ok": True, "chain": False, "cerr": False, "empty": False},
                                     {"id": 2, "ok": True, "chain": False, "cerr": False, "empty": False}],
                 "gor": []})
+    # relay failover: the first try-list server relays a message and drops before the client
+    # answers; the late answer must not reach the second server
+    for p in [dict(q) for q in rel[:3]]:
+        p["failover"] = True
+        rel.append(p)
     with open(ctx.path("progs.json"), "w") as fh:
         json.dump(live, fh)
     with open(ctx.path("relay.json"), "w") as fh:
